@@ -2,6 +2,7 @@
 #include "common/driver.h"
 #include "common/kit.h"
 #include "common/ref_operator.h"
+#include <cstring>
 
 static void run_case(CaseCtx& c)
 {
@@ -31,7 +32,7 @@ static void run_case(CaseCtx& c)
     ProblemSpec ps = random_problem(rng, go.Rmax, true);
     bool dirbc = rng.coin();
     int vkind  = rng.range(0, 2);
-    int threads = rng.pick({1, 1, 3});
+    int threads = rng.pick({1, 1, 2, 3, 4});
     gs.describe(c.obs.params);
     ps.describe(c.obs.params);
     c.obs.params.b("DirBC_Interior", dirbc).str("vec_kind", vec_kind_name(vkind)).i("threads", threads).b("chain", want_chain);
@@ -75,6 +76,17 @@ static void run_case(CaseCtx& c)
             rg.computeResidual(r, f, u);
             res.push_back(r);
             names.push_back(std::string("give") + char('0' + cc));
+            if (threads > 1 && cc == 3) {
+                // the scatter must give the same bits every time it runs with the same team size
+                bool same = true;
+                for (int rep = 0; rep < 6 && same; rep++) {
+                    Vector<double> r2(n);
+                    rg.computeResidual(r2, f, u);
+                    for (int k = 0; k < n; k++)
+                        same = same && std::memcmp(&r2[k], &r[k], sizeof(double)) == 0;
+                }
+                c.obs.require("give_repeatable_bitwise", same, lvl + "/T" + std::to_string(threads));
+            }
         }
         {
             Level& L = *H[3].levels[d];
